@@ -193,6 +193,7 @@ def lint_report_loop(run, twin=None):
         for bk, obj in binding_kinds(scope):
             for used in (False, True):
                 def body(sk=sk, scope=scope, bk=bk, obj=obj, used=used):
+                    run.case = '%s/%s/%s' % (sk, bk, 'used' if used else 'unused')
                     name = SStr.sym('ident')
                     assume(name.n() >= 1)
                     dl, dc = z3.Int('decl_line'), z3.Int('decl_col')
@@ -219,9 +220,9 @@ def lint_report_loop(run, twin=None):
 
                 def on_path(p, out, sk=sk, bk=bk, used=used):
                     if out[0] != 'ok':
-                        prove('%s/%s/%s-no-exception(%s)' % (sk, bk, 'used' if used else 'unused', type(out[1]).__name__), False, path=p)
+                        prove('no-exception(%s)' % type(out[1]).__name__, False, path=p)
                     else:
-                        prove('%s/%s/%s-returns-result' % (sk, bk, 'used' if used else 'unused'), isinstance(out[1], AccList),
+                        prove('returns-result', isinstance(out[1], AccList),
                               clause='lint returns the accumulated list', path=p)
                 core.explore(body, on_path)
     # relabel loop obligations with the case they belong to is not needed: names carry the path signature
